@@ -2,8 +2,9 @@
 # verify_seed.sh <Cxx>  — confirm the seeded mutations of one property in its scratch worktree /tmp/wt-Cxx:
 #   suite green with patch, demo fails with patch, demo passes without patch. Writes /tmp/seed-Cxx/mutN/verify.txt
 export GOFLAGS=-mod=mod GOPROXY=off GOSUMDB=off GOTOOLCHAIN=local
-id=$1; wt=/tmp/wt-$id
-for m in /tmp/seed-$id/mut*; do
+[ -f /tmp/skip-$1 ] && exit 0
+id=$1; wt=/tmp/${WT_PREFIX:-wt}-$id
+for m in /tmp/${SEED_PREFIX:-seed}-$id/mut*; do
   [ -f $m/patch.diff ] || continue
   out=$m/verify.txt; : > $out
   git -C $wt checkout -q -- . ; git -C $wt clean -fdq
